@@ -24,7 +24,7 @@ type c06Run struct {
 	HelRecv, HelSend uint32
 	// what the server answers in its Acknowledge
 	AckRecv, AckSend, AckMaxMsg, AckMaxChunks uint32
-	Sizes                                    []int `json:"payload_sizes"`
+	Sizes                                     []int `json:"payload_sizes"`
 }
 
 func (r *c06Run) Sample() any { return r }
